@@ -909,6 +909,12 @@ func (h *HistRunner) GenStep(r *Rng, nsess int, profile string) string {
 			return fmt.Sprintf("S%d CMD NOOP NOOP", i)
 		}
 		item := Pick(r, []string{"(FLAGS)", "(UID FLAGS)", "(BODY[])", "(BODY.PEEK[])", "(RFC822.SIZE)", "(UID BODY[TEXT])"})
+		if r.Chance(1, 6) {
+			// pattern: a non-PEEK body fetch that FAILS (the messages have one part): whatever the failed command did to the
+			// view (\Seen) was never announced, so the probe must still agree with what the client knows
+			h.followUp = append(h.followUp, fmt.Sprintf("S%d PROBE", i))
+			return fmt.Sprintf("S%d CMD FETCH FETCH %s %s", i, set, Pick(r, []string{"(BODY[2])", "(BODY[1.2])", "(FLAGS BODY[3.TEXT])", "(BODY[2]<0.10>)"}))
+		}
 		if r.Chance(1, 3) {
 			return fmt.Sprintf("S%d ISSUED FETCH FETCH %s %s", i, set, item)
 		}
